@@ -610,7 +610,8 @@ pub fn gen_impl_methods(files: &BTreeMap<String, syn::File>, out: &mut String) {
             let Item::Impl(im) = it else { continue };
             let Some((_, tr, _)) = &im.trait_ else { continue };
             let st = im.self_ty.to_token_stream().to_string();
-            if !st.contains("GenericArray") {
+            // impls FOR an array type, and impls of a trait that names one (From<GenericArray<..>> for [T; N])
+            if !st.contains("GenericArray") && !im.trait_.as_ref().map(|t| t.1.to_token_stream().to_string().contains("GenericArray")).unwrap_or(false) {
                 continue;
             }
             let mut self_txt: String = st.split_whitespace().collect::<Vec<_>>().join("");
@@ -650,7 +651,8 @@ pub fn gen_impl_bounds(files: &BTreeMap<String, syn::File>, out: &mut String) {
             let Item::Impl(im) = it else { continue };
             let Some((neg, tr, _)) = &im.trait_ else { continue };
             let st = im.self_ty.to_token_stream().to_string();
-            if !st.contains("GenericArray") {
+            // impls FOR an array type, and impls of a trait that names one (From<GenericArray<..>> for [T; N])
+            if !st.contains("GenericArray") && !im.trait_.as_ref().map(|t| t.1.to_token_stream().to_string().contains("GenericArray")).unwrap_or(false) {
                 continue;
             }
             let self_txt = norm(st);
@@ -742,7 +744,8 @@ pub fn gen_thin_bodies(files: &BTreeMap<String, syn::File>, out: &mut String) {
             match it {
                 Item::Impl(im) => {
                     let st = im.self_ty.to_token_stream().to_string();
-                    if !st.contains("GenericArray") && !st.contains("ArrayBuilder") && !st.contains("ArrayConsumer") {
+                    let names_ga = im.trait_.as_ref().map(|t| t.1.to_token_stream().to_string().contains("GenericArray")).unwrap_or(false);
+                    if !st.contains("GenericArray") && !st.contains("ArrayBuilder") && !st.contains("ArrayConsumer") && !names_ga {
                         continue;
                     }
                     let header = match &im.trait_ {
